@@ -26,12 +26,16 @@ WATCHDOG = {"quick": 900, "thorough": 3600}
 def plan(tier, seed):
     n = 1200 if tier == "quick" else 12000
     cases = [{"mode": "diff", "seed": seed, "idx": i, "separate": i % 6 == 5} for i in range(n)]
+    # both strategies name the same listener filter with different values: each must get its own filter's updates
+    cases += [{"mode": "diff", "seed": seed, "idx": i, "separate": "samekeys"} for i in range(0, n, 8)]
     m = 2000 if tier == "quick" else 40000
     cases += [{"mode": "inject", "seed": seed, "idx": i} for i in range(m)]
     cases += [{"mode": "live", "seed": seed, "idx": i} for i in range(120 if tier == "quick" else 1200)]
     cases += [{"mode": "sports", "seed": seed, "idx": i} for i in range(200 if tier == "quick" else 3000)]
     # directed case for the listed finding C13-second-stream-replays-market
     cases.insert(0, {"mode": "diff", "seed": seed, "idx": 5, "separate": True, "directed": True})
+    # ... and for its other face, C13-second-stream-by-products
+    cases.insert(1, {"mode": "diff", "seed": seed, "idx": 0, "separate": "samekeys", "kwargs": [{"inplay": None}, {"inplay": False}]})
     return cases
 
 
@@ -109,11 +113,19 @@ def run_diff(desc, out):
     a, b = case["strategies"]
     if desc["separate"]:
         b = dict(b, listener_kwargs={"inplay": None, "seconds_to_start": None, "max_inplay_seconds": None, "cumulative_runner_tv": True})
+    samekeys = desc["separate"] == "samekeys"
     variants = {"A": [a], "AB": [a, b], "BA": [b, a]}
+    if samekeys:
+        rng = simgen.mk_rng(desc["seed"], desc["idx"], 131)
+        ka, kb = desc.get("kwargs") or rng.choice((({"seconds_to_start": 600}, {"seconds_to_start": 20}), ({"inplay": False}, {"inplay": True}), ({"max_inplay_seconds": 3}, {"max_inplay_seconds": 600}), ({"inplay": True}, {"inplay": None})))
+        a, b = dict(a, listener_kwargs=ka), dict(b, listener_kwargs=kb)
+        variants = {"A": [a], "B": [b], "AB": [a, b], "BA": [b, a]}
     ledgers = {}
+    received = {}
     for name, sts in variants.items():
         c = dict(case, strategies=copy.deepcopy(sts))
         tr = simrun.run_case(c)
+        received[name] = {s_.name: list(s_.received) for s_ in tr.strategies}
         if O.abort_violation(tr, out):
             return
         for sw in tr.swallowed:
@@ -122,6 +134,18 @@ def run_diff(desc, out):
         ledgers[name] = (ledger(tr, "A", "end"), ledger(tr, "A", "closed"))
     out.rule("differential")
     out.d("diff:%s:%d:%d" % (desc["separate"], len(ledgers["A"][0]), len(case["markets"])))
+    if samekeys:
+        # what each strategy is handed depends on its own subscription only (the replay of the market for the second stream is
+        # the listed finding and concerns the ledgers, not the deliveries)
+        for other in ("AB", "BA"):
+            for nm in ("A", "B"):
+                out.rule("delivery")
+                alone, tog = received[nm][nm], received[other][nm]
+                if alone != tog:
+                    i = next((j for j, (x, y) in enumerate(zip(alone, tog)) if x != y), min(len(alone), len(tog)))
+                    core = lambda seq: [x for x in seq if x[0] in ("check", "book", "closed")]  # noqa: E731  (the market data itself)
+                    out.v("delivery-differs-with-co-running-strategy", {"registration": other, "second": other[1] == nm, "market_data": core(alone) != core(tog)}, strategy=nm, index=i, alone=alone[i : i + 2], together=tog[i : i + 2], n_alone=len(alone), n_together=len(tog), kwargs=(ka, kb))
+        return
     for other in ("AB", "BA"):
         for wi, when in enumerate(("end", "closed")):
             if ledgers["A"][wi] != ledgers[other][wi]:
